@@ -76,6 +76,40 @@ theorem checked_flow_slide_terminates (p : Prog) (hck : slideAcyclic p = true) (
     (o : Nat → Ans) (k : Nat) : (slide p o (p.length + 1) k h).stop ≠ none :=
   slide_terminates p (slideAcyclic_sound p hck) h hc o k
 
+/-- **T1, stack-sensitive form `slide_terminates_ranked`.** A certificate accepted by the VERIFIED check `certOk`
+    (which catch stacks can occur at which position + a rank of the positions) bounds every `slide` that starts in an
+    allowed state by `|elements| + 1` iterations, for every oracle.  `slideRanked p` = the check on the certificate the
+    (un-verified) search `buildCert` finds; the harness runs it on every compiled flow and checks that every recorded real
+    `slide` call starts in an allowed state. -/
+theorem slide_terminates_ranked (p : Prog) (c : Cert) (hc : certOk p c = true) (h : Head)
+    (ha : c.allowed h.pos h.cstack = true) (o : Nat → Ans) (k : Nat) :
+    (slide p o (slideBound p) k h).stop ≠ none := by
+  by_cases hle : h.pos ≤ p.length
+  · exact slide_stops_ranked hc (slideBound p) k h ha (by have := certOk_rank_le hc hle; unfold slideBound; omega)
+  · unfold slideBound slide
+    have : p[h.pos]? = none := List.getElem?_eq_none_iff.mpr (by omega)
+    simp [stepAt, this]
+
+/-- the allowed states are closed under what the interpreter does with a head: the state in which a run of `slide` ends,
+    and the states in which the next `slide` of a parked head starts (one element on; behind the innermost catch label
+    after a pattern failure) — so, starting from `(0, [])`, every `slide` call starts in an allowed state. -/
+theorem allowed_states_closed (p : Prog) (c : Cert) (hc : certOk p c = true) :
+    c.allowed 0 [] = true ∧
+    (∀ (h : Head) (o : Nat → Ans) (fuel k : Nat), c.allowed h.pos h.cstack = true →
+      c.allowed (slide p o fuel k h).final.pos (slide p o fuel k h).final.cstack = true) ∧
+    (∀ (u : Nat) (s : List Nat), u < p.length → c.allowed u s = true → ∀ m ∈ resumeMoves p u s, c.allowed m.1 m.2 = true) := by
+  refine ⟨?_, fun h o fuel k ha => slide_final_allowed hc fuel k h ha, fun u s hu ha m hm => certOk_resume hc hu ha hm⟩
+  unfold certOk at hc
+  simp only [Bool.and_eq_true] at hc
+  exact hc.1.1
+
+/-- `when`-shaped flow (catch label pushed, wait, jump over the failure handler `label; catchPop; abort`, end label,
+    catchPop): rejected by the coarse position graph (abort → the already popped label), accepted by the refined check -/
+def whenShape : Prog :=
+  [.catchPush 3, .wait false, .goto (some 6), .step false, .catchPop, .abort, .step false, .catchPop]
+example : slideAcyclic whenShape = false := by decide
+example : slideRanked whenShape = true := by decide
+
 /-- non-vacuity: `while $c: (match …)`-shaped flow — label, goto-out, WAIT, goto-back, label — is accepted -/
 def loopWithWait : Prog := [.step false, .goto (some 4), .wait false, .goto (some 0), .step false]
 example : slideAcyclic loopWithWait = true := by decide
